@@ -148,20 +148,32 @@ Theorem C04_pool_no_oversubscription : forall tbl P, PInv tbl P ->
 Proof. exact pool_no_oversubscription. Qed.
 Print Assumptions C04_pool_no_oversubscription.
 
-(* ---- "it fits" implies "the placement succeeds" when the request names each resource once ---- *)
-Theorem C04_fit_implies_success : forall R req c, NoDup (req_names req) -> r_gt R req = true ->
-  exists R', r_allocate_multiple R req c = (R', Ok tt).
-Proof. exact fit_implies_success. Qed.
-Print Assumptions C04_fit_implies_success.
-Theorem C04_worker_fit_place_succeeds : forall t s w, NoDup (req_names (s_req s)) -> r_gt (w_res w) (s_req s) = true ->
+(* ---- the fit test (Resources.__gt__ as of /repo 402c33a, behind can_accomodate_strategy) says yes EXACTLY
+   when allocate_multiple serves the request: what passes the fit test is never refused ---- *)
+Theorem C04_fit_iff_success : forall R req c, Nonneg R -> nonneg_vec req ->
+  (r_gt R req = true <-> exists R', r_allocate_multiple R req c = (R', Ok tt)).
+Proof. exact gt_iff_success. Qed.
+Print Assumptions C04_fit_iff_success.
+Theorem C04_fit_never_refused : forall R req c R' e, Nonneg R -> nonneg_vec req ->
+  r_gt R req = true -> r_allocate_multiple R req c <> (R', Err e).
+Proof. exact fit_never_refused. Qed.
+Print Assumptions C04_fit_never_refused.
+Theorem C04_worker_fit_place_succeeds : forall t s w, Nonneg (w_res w) -> nonneg_vec (s_req s) ->
+  r_gt (w_res w) (s_req s) = true ->
   (s_is_batch s = true -> 1 <= s_bsize s /\ zfind (s_id s) (w_batches w) = None) ->
   snd (w_place t s w) = Ok tt.
 Proof. exact w_fit_place_succeeds. Qed.
 Print Assumptions C04_worker_fit_place_succeeds.
-Theorem C04_fit_not_success_refuted :
-  exists R req c R' e, r_gt R req = true /\ r_allocate_multiple R req c = (R', Err e).
-Proof. exact fit_not_success_refuted. Qed.
-Print Assumptions C04_fit_not_success_refuted.
+(* for requests that name each resource once the fit test is the per-key test *)
+Theorem C04_fit_per_key : forall R req, NoDup (req_names req) -> nonneg_vec req -> Nonneg R ->
+  (r_gt R req = true <-> r_gt_per_key R req = true).
+Proof. exact r_gt_per_key_iff. Qed.
+Print Assumptions C04_fit_per_key.
+(* the per-key test alone (the fit test before 402c33a, finding FI) accepted requests that are then refused *)
+Theorem C04_per_key_not_success_refuted :
+  exists R req c R' e, r_gt_per_key R req = true /\ r_allocate_multiple R req c = (R', Err e) /\ r_gt R req = false.
+Proof. exact per_key_not_success_refuted. Qed.
+Print Assumptions C04_per_key_not_success_refuted.
 
 (* ---- copies ---- *)
 (* a shallow copy of a ledger whose vector has no two matching cells always succeeds and has the same
